@@ -1,5 +1,5 @@
 (* Ref.v — the plain reference model of the vertex<->link mutators: direct list edits with no
-   call-backs and no fuel.  StructProofs.v shows the fuelled transliteration (Struct.v) computes
+   call-backs and no fuel.  RefProofs.v shows the fuelled transliteration (Struct.v) computes
    exactly these (C03), and the invariants are proved of these.  Model-side: definitions only. *)
 From EG Require Import Base State Nbrs Struct.
 
